@@ -456,6 +456,10 @@ def rule_scan_covers_words(ctx, R="C20/scan-covers-words"):
 
 def run(ctx):
     rule_scan_covers_words(ctx)
+    # every membership test of C20 reads the principal mapping's system range: aggregation must extend that range whenever it merges a
+    # named part into the module (same rule instances as C13/merge-guards, C13/hull)
+    from rules import c13
+    c13.rule_merges(ctx, P="C20/principal-range")
     # principal_mapping_address is resolved with find_mapping_no_bias: it has to be the order-independent scan (the mapping list is not address-sorted)
     from rules import c06
     c06.rule_find_mapping(ctx, R="C20/principal-lookup", fn="find_mapping_no_bias", system_range=True)
